@@ -7,6 +7,9 @@ Line-protocol ops of the framing model (C19):
 * `frame gwmaxlen <Unit> <rMax>`    — generated gateway limit (`Unit` = `RPCSendHeaders_Response` …)
 * `frame req4 <Type> <hex>`         — `ReadRequest` of the model on the stream: `ok <bytes pulled> <re-encoding>` | `err`
 * `frame resp4 <Type> <hex>`        — `ReadResponse`: `ok <pulled> <re-encoding>` | `rpcerr <code> <hex desc> <pulled>` | `err`
+* `frame consts`                    — `encbuf decbuf rhp2min rhp3min rhp4err chunk` (generated constants)
+* `frame rhp2rt <hex payload> <maxLen>` — the payload framed by the model's `writeMessage` (identity
+  cipher, zero padding) and read back by its `readMessage`: `ok <hex plaintext prefix> <frame bytes>` | `err`
 * `frame handshake <g1> <u1> <g2> <u2>` — header exchange dialer(g1,u1) / acceptor(g2,u2): `accept` | `reject`
 -/
 namespace Sia.Driver
@@ -23,8 +26,24 @@ private def frSchema (name : String) : Option Sch :=
   | some t => some t.2.2
   | none => none
 
+/-- the identity cipher with a 16-byte zero tag (the driver needs no secrecy) -/
+private def frToyAEAD : AEAD :=
+  { sealF := fun _ m => m ++ List.replicate 16 0
+    openF := fun _ c => if c.length < 16 then none else some (c.take (c.length - 16)) }
+
 def frameOp (args : List String) : String :=
   match args with
+  | ["consts"] =>
+    s!"{Gen.encoderBufSize} {Gen.decoderBufSize} {Gen.Framing.rhp2_minMessageSize} {Gen.Framing.rhp3_minMessageSize} {Gen.Framing.rhp4_maxLen_RPCError} {Gen.Framing.rhp2_readNChunk}"
+  | ["rhp2rt", hex, ml] =>
+    match frHexArg hex, ml.toNat? with
+    | some p, some maxLen =>
+      let nonce : List UInt8 := List.replicate nonceSize 7
+      let frame := rhp2Frame frToyAEAD nonce p (List.replicate (rhp2PadLen p.length) 0)
+      match rhp2ReadFrame frToyAEAD none maxLen (frame ++ [1, 2, 3]) with
+      | (.msg pt _, _) => "ok " ++ frHexOut (pt.take p.length) ++ " " ++ toString frame.length
+      | _ => "err"
+    | _, _ => "bad-op"
   | ["maxlen4", t] =>
     match Gen.Framing.rhp4_maxLens.find? (fun p => p.1 == t) with
     | some p => toString p.2
